@@ -245,6 +245,14 @@ def workload(tier, rng, shard, nshards, work):
                     extra_cls = ["C03:no-final-line-break"]
                 else:
                     extra_cls = []
+                if lay == "short" and rng.random() < 0.25:
+                    # free-form text: blanks before a line break mean nothing (outside a quoted text, that is)
+                    rows, quotes = [], 0
+                    for row in text.split("\n"):
+                        quotes += row.count('"')
+                        rows.append(row + (rng.choice([" ", "\t", "  ", ""]) if quotes % 2 == 0 and row else ""))
+                    text = "\n".join(rows)
+                    extra_cls = extra_cls + ["C03:short:blank-before-line-break"]
                 if nl == "CRLF":
                     text = text.replace("\n", "\r\n")
                 fn = os.path.join(str(work), "f%d.%s" % (i % 5, "json" if "json" in lay else "TextGrid"))
